@@ -443,12 +443,21 @@ package iavl
 
 // With the caches filled (the state after any successful load or commit) the
 // getters return the cached values and change nothing.
+// discovery of the first retained version: a cached value is final; otherwise the first legacy root, or a binary
+// search between the cached lower bound and the latest version — on a store without versions the answer is 0
+// ("unknown", nothing is cached that a later call would take for a version)
 //@ func (*nodeDB).getFirstVersion(ndb) (v, err)
 //@   props C14
-//@   requires ndb != nil && ndb.db != nil
+//@   nosafety
+//@   requires ndb != nil && ndb.db != nil && ndb.firstVersion >= 0
 //@   ensures [cached] old(ndb.firstVersion) > 0 ==> err == nil && v == old(ndb.firstVersion) && ndb.firstVersion == old(ndb.firstVersion) && ndb.latestVersion == old(ndb.latestVersion) && ndb.legacyLatestVersion == old(ndb.legacyLatestVersion)
-//@   ensures [recorded] err == nil ==> ndb.firstVersion == v
-//@   modifies ndb.firstVersion, ndb.latestVersion, ndb.legacyLatestVersion
+//@   macro L0 = result("nodeDB).getLatestVersion@1", 1)
+//@   loop 1 invariant (L0 <= 4611686018427387903 ==> 0 <= firstVersion && latestVersion <= L0) && (L0 <= 0 ==> latestVersion == L0 && firstVersion == 0)
+//@   callsite nodeDB).hasVersion [probe-not-below-the-lower-bound] firstVersion < latestVersion && arg0 == ndb
+//@   callsite nodeDB).resetFirstVersion@2 [search-result-recorded] arg1 == latestVersion && firstVersion >= latestVersion
+//@   ensures [store-without-versions-stays-unknown] err == nil && calls("nodeDB).getLatestVersion") == 1 && L0 == 0 ==> v == 0
+//@   ensures [never-above-the-latest] err == nil && calls("nodeDB).getLatestVersion") == 1 && L0 <= 4611686018427387903 ==> v <= L0
+//@   modifies *
 
 //@ func (*nodeDB).getLatestVersion(ndb) (found, v, err)
 //@   props C14
